@@ -194,6 +194,18 @@ add("ProximityTree.fit rebinds distance_measure, find_stump, get_distance_measur
     {"kind": "p_fit", "clause_re": r"^fit-changes-params: ProximityTree\.fit rebinds \['distance_measure', 'find_stump', 'get_distance_measure', 'random_state'\]$",
      "where": {"cls": "ProximityTree"}})
 
+# ---------------------------------------------------------------- fit returns self and sets the flag
+def fitc(owner, returns, flag, what):
+    add(what, {"kind": "fit_static", "clause": "fit-contract", "where": {"owner": owner, "returns": returns, "flag": flag}})
+
+
+fitc("BaseStrategy", "self._fit(data)", "unset", "BaseStrategy.fit returns whatever `_fit` returns and keeps no fitted flag")
+fitc("BaseStrategy", "self.estimator.fit(X, y)", "unset", "benchmarking strategies (TSC/TSR): fit returns the result of the "
+     "INNER estimator's fit (the wrapped estimator, not the strategy) and keeps no fitted flag")
+fitc("RotationForest", "none", "unset", "contrib RotationForest.fit returns None and keeps no fitted flag")
+fitc("ShapeDTW", "self", "unset", "ShapeDTW.fit never sets _is_fitted: is_fitted stays False after a successful fit "
+     "(static: its fit cannot run under scikit-learn 1.7)")
+
 json.dump(F, open("/verif/findings.d/C04.json", "w"), indent=1)
 print(len(F), "entries,", sum(1 for f in F if f["status"] == "open"), "open,",
       sum(1 for f in F if f["status"] == "fixed"), "fixed")
